@@ -312,9 +312,25 @@ fn st_write<T: SerDes>(st: &mut MiscState, v: &T, c: bool) -> Value {
     json!({"res": if r.is_ok() {"ok"} else {"err"},
            "bytes": bytes_to_j(&st.wbuf[before..])})
 }
-fn st_read<T: SerDes, F: Fn(&T) -> Value>(st: &mut MiscState, c: bool, show: F) -> Value {
+/// a reader that hands out at most `chunk` bytes per read call (pipes and sockets do that)
+struct Chunked<'a> {
+    inner: &'a mut Cursor<Vec<u8>>,
+    chunk: usize,
+}
+impl<'a> std::io::Read for Chunked<'a> {
+    fn read(&mut self, buf: &mut [u8]) -> std::io::Result<usize> {
+        let n = std::cmp::min(buf.len(), self.chunk);
+        self.inner.read(&mut buf[..n])
+    }
+}
+
+fn st_read<T: SerDes, F: Fn(&T) -> Value>(st: &mut MiscState, c: bool, chunk: usize, show: F) -> Value {
     let before = st.rd.position();
-    let r = T::deserialize(&mut st.rd, c);
+    let r = if chunk == 0 {
+        T::deserialize(&mut st.rd, c)
+    } else {
+        T::deserialize(&mut Chunked { inner: &mut st.rd, chunk }, c)
+    };
     let after = st.rd.position();
     json!({"res": match r { Ok(v) => json!(["ok", show(&v)]), Err(_) => json!(["err"]) },
            "consumed": after - before, "pos": after})
@@ -322,6 +338,7 @@ fn st_read<T: SerDes, F: Fn(&T) -> Value>(st: &mut MiscState, c: bool, show: F) 
 
 fn exec_stream(st: &mut MiscState, op: &Value) -> Value {
     let c = op["c"].as_bool().unwrap_or(true);
+    let ck = op["chunk"].as_u64().unwrap_or(0) as usize;
     match op["fn"].as_str().unwrap() {
         "reset" => {
             st.wbuf.clear();
@@ -355,12 +372,12 @@ fn exec_stream(st: &mut MiscState, op: &Value) -> Value {
             t => panic!("unknown type {}", t),
         },
         "read" => match op["ty"].as_str().unwrap() {
-            "Fr" => st_read::<Fr, _>(st, c, |v| v.to_j()),
-            "Fq12" => st_read::<Fq12, _>(st, c, |v| v.to_j()),
-            "G1" => st_read::<G1, _>(st, c, |v| proj_to_j(v)),
-            "G2" => st_read::<G2, _>(st, c, |v| proj_to_j(v)),
-            "G1Affine" => st_read::<G1Affine, _>(st, c, |v| aff_to_j(v)),
-            "G2Affine" => st_read::<G2Affine, _>(st, c, |v| aff_to_j(v)),
+            "Fr" => st_read::<Fr, _>(st, c, ck, |v| v.to_j()),
+            "Fq12" => st_read::<Fq12, _>(st, c, ck, |v| v.to_j()),
+            "G1" => st_read::<G1, _>(st, c, ck, |v| proj_to_j(v)),
+            "G2" => st_read::<G2, _>(st, c, ck, |v| proj_to_j(v)),
+            "G1Affine" => st_read::<G1Affine, _>(st, c, ck, |v| aff_to_j(v)),
+            "G2Affine" => st_read::<G2Affine, _>(st, c, ck, |v| aff_to_j(v)),
             t => panic!("unknown type {}", t),
         },
         f => panic!("unknown stream fn {}", f),
